@@ -236,6 +236,12 @@ vfps::meshaxis_t *vfps::ElectricField::wakePotential()
         for (unsigned int i=0; i<_nmax/2; i++) {
             _wakelosses[i]= (*_impedance)[i] *_formfactor[i];
         }
+        /* The complex-to-real transform reads bins 0..._nmax/2
+         * and is allowed to overwrite its input (FFTW documents this),
+         * so the last bin, which carries no impedance, has to be zeroed
+         * for every transform and not only at allocation.
+         */
+        _wakelosses[_nmax/2] = 0;
 
         //Fourier transorm wakelosses
         fft::fft_execute(_fft_wakelosses);
